@@ -1,21 +1,34 @@
-"""Positive controls: tiny violating fixtures that every zero-count rule must flag on every run."""
+"""Positive controls: for rules whose expected number of findings on a healthy tree is zero, a known
+violating variant (a seeded change applied to a scratch copy under $TMPDIR) must be flagged on every run."""
 
-import sys
+import os
+
+from . import VERIF
+
+# (seeded change, property whose check must report it, the zero-count rule it exercises)
+CONTROLS = [
+    ("C09-m2", "C13", "A1-purity"),
+    ("C11-m1", "C13", "B1-atomic"),
+    ("C04-m2", "C13", "B2-save-order"),
+    ("revert-D12", "C19", "S-sentinel"),
+    ("revert-D11", "C16", "F1-aligned"),
+    ("revert-D1", "C01", "C-unesc"),
+]
 
 
 def run() -> int:
-    # filled in as rules are added; each control prints one line
+    from .selftest import run_variant
+
     failures = 0
-    for name, fn in CONTROLS:
-        try:
-            ok = fn()
-        except Exception as e:  # pragma: no cover
-            ok = False
-            print("CONTROL %s raised %r" % (name, e))
-        print("CONTROL %s %s" % (name, "flagged (ok)" if ok else "NOT FLAGGED"))
+    for name, prop, rule in CONTROLS:
+        patch = os.path.join(VERIF, "seeded", name, "patch.diff")
+        if not os.path.isfile(patch):
+            print("CONTROL %s missing" % name)
+            failures += 1
+            continue
+        code, first = run_variant(patch, [prop])[prop]
+        ok = code == 1 and rule.split("-")[0] in first
+        print("CONTROL %-11s %s %-14s %s" % (name, prop, rule, "flagged (ok)" if ok else "NOT FLAGGED (exit %d) %s" % (code, first[:120])))
         if not ok:
             failures += 1
     return 0 if failures == 0 else 2
-
-
-CONTROLS = []
